@@ -129,7 +129,7 @@ func normErr(s string) string {
 			return "isn't Bindings:scalar"
 		}
 		return "isn't Bindings:array"
-	case strings.HasPrefix(s, "json: unsupported type: func("):
+	case strings.HasPrefix(s, "json: unsupported type: func("), strings.HasPrefix(s, "json: unsupported value: encountered a cycle"), strings.HasPrefix(s, "json: unsupported value: NaN"):
 		return "json: unsupported"
 	}
 	if i := strings.Index(s, " at <eval>"); i >= 0 {
@@ -413,6 +413,17 @@ type walkLine struct {
 
 func runOneWalk(op string, id int, c gen.WalkCase) (line walkLine) {
 	line = walkLine{Op: op, Id: id, Spec: c.Spec, St: c.St, Limit: c.Limit, Bp: c.Bp, Profile: c.Profile}
+	if crashedCases[id] {
+		if op == "step" {
+			if len(c.Msgs) > 0 {
+				line.Pending = c.Msgs[0]
+			}
+		} else {
+			line.Msgs = c.Msgs
+		}
+		line.Go = map[string]interface{}{"panic": fatalText}
+		return
+	}
 	ctx := context.Background()
 	if c.Spec.HasLoop() {
 		var cancel func()
